@@ -1,10 +1,11 @@
 /* C01 / C05 / C03 (file level): write histories through the real writer, read back through the
  * real reader in all three I/O modes.
  *
- *   wr cols=<name.rep.ptype.tlen,...> codec=<n> page=<bytes> ns=<k> s0=<step> ... s<k-1>=<step>
+ *   wr cols=<name.rep.ptype.tlen[.id:p1:p2],...> codec=<n> page=<bytes> ns=<k> s0=<step> ... s<k-1>=<step>
  *      | st=<status of each call incl. close, comma list> file=x<bytes> nrg=<n> rows=<n>
  *        r<rg>_<col>=<ret>;<defs>;<v0:v1:...>[;<reps>]   (fread mode, one read_batch of the whole chunk; a REPEATED
  *                                                column is read with a rep_levels array and has the fourth field)
+ *        lt<mode>=<N | id:p1:p2 per schema element>   carquet_schema_node_logical_type of every element after re-opening
  *        p_roundtrip=0/1 (C side: what was read equals what was written)  p_modes=0/1 (mmap and
  *        buffer mode return the same as fread mode)  p_same_twice=0/1 (second write is byte-identical)
  *   step := b.<col>.<defs>.<v0:v1:...>   one write_batch: defs = string of 0/1 per row, or N for a NULL
@@ -234,10 +235,45 @@ static void run_case(hctx* h, fcase* fc) {
             if (rdm && (carquet_reader_num_row_groups(rdm) != nrg || carquet_reader_num_rows(rdm) != carquet_reader_num_rows(rd))) modes = 0;
             if (rdb && (carquet_reader_num_row_groups(rdb) != nrg || carquet_reader_num_rows(rdb) != carquet_reader_num_rows(rd))) modes = 0;
         }
+        /* lt<mode>=<one entry per schema element, root first>: what carquet_schema_node_logical_type returns for every element
+         * of the re-opened file's schema (N = NULL, else id:p1:p2), in fread (0), mmap (1) and buffer (2) mode */
+        { carquet_reader_t* rs[3] = { rd, rdm, rdb };
+          for (int m = 0; m < 3; m++) {
+              if (!rs[m]) continue;
+              const carquet_schema_t* sch = carquet_reader_schema(rs[m]);
+              int ne = sch ? carquet_schema_num_elements(sch) : 0;
+              fprintf(h->out, " lt%d=", m);
+              if (ne == 0) fputc('-', h->out);
+              for (int e = 0; e < ne; e++) {
+                  if (e) fputc(',', h->out);
+                  const carquet_schema_node_t* nd = carquet_schema_get_element(sch, e);
+                  if (!nd) { fputc('?', h->out); continue; }
+                  print_logical(h->out, carquet_schema_node_logical_type(nd));
+              }
+          } }
         if (rd) carquet_reader_close(rd);
         if (rdm) carquet_reader_close(rdm);
         if (rdb) carquet_reader_close(rdb);
-        fprintf(h->out, " p_roundtrip=%d p_modes=%d p_same_twice=%d", roundtrip, modes, same_twice);
+        /* one reader handle per column, one after the other (a projection done by hand): handle k is opened only after handle
+         * k-1 has read its column to the end and was closed; what a handle returns must not depend on what handles before it
+         * did to THEIR streams (stdio mode, where a stream position exists) */
+        int percol = 1;
+        if (roundtrip && fc->ncols >= 2) {
+            for (int c = 0; c < fc->ncols; c++) {
+                carquet_reader_options_t r1; carquet_reader_options_init(&r1);
+                carquet_reader_t* one = carquet_reader_open(path, &r1, &err);
+                if (!one) { percol = 0; break; }
+                int nrg = carquet_reader_num_row_groups(one), e = 0;
+                for (int g = 0; g < nrg && g < 20 && e < nrg_exp; g++, e++) {
+                    char* got = read_chunk(one, &fc->cols[c], g, c);
+                    char* want = expected_chunk(&exp[e][c], &fc->cols[c]);
+                    if (strcmp(got, want) != 0) percol = 0;
+                    free(got); free(want);
+                }
+                carquet_reader_close(one);
+            }
+        }
+        fprintf(h->out, " p_roundtrip=%d p_modes=%d p_same_twice=%d p_handle_per_column=%d", roundtrip, modes, same_twice, percol);
     }
     fputc('\n', h->out);
     h->n_lines++;
@@ -355,7 +391,49 @@ static void gen_run_case(hctx* h, fcase* fc, int rep, long run, int prefix) {
     for (int j = 0; j < nn; j++) { t->vals[j] = h_alloc(4); uint32_t v = (uint32_t)h_next(h); memcpy(t->vals[j], &v, 4); t->vlen[j] = 4; }
 }
 
+/* directed: more row groups than a 16-bit ordinal can number (RowGroup.ordinal is an i16; the reader's limit is 100000):
+ * `nrg` row groups of one INT32 row each.  Judged on the C side: every call OK, and the file re-opened in the three modes has
+ * nrg row groups, nrg rows, and row g holds the value g.
+ *   wrmany nrg=<n> | st=<first non-OK status or 0> p_roundtrip=0/1 */
+static void run_many_rg(hctx* h, long nrg) {
+    char path[128]; snprintf(path, sizeof path, "/tmp/verif_h_%d_m.parquet", (int)getpid());
+    fprintf(h->out, "wrmany nrg=%ld", nrg); h_call(h);
+    carquet_error_t err; memset(&err, 0, sizeof err);
+    carquet_schema_t* sc = carquet_schema_create(&err);
+    (void)!carquet_schema_add_column(sc, "v", CARQUET_PHYSICAL_INT32, NULL, CARQUET_REPETITION_REQUIRED, 0);
+    carquet_writer_options_t wo; carquet_writer_options_init(&wo); wo.compression = CARQUET_COMPRESSION_UNCOMPRESSED;
+    carquet_writer_t* w = carquet_writer_create(path, sc, &wo, &err);
+    int st = w ? 0 : -1;
+    for (long g = 0; w && g < nrg && st == 0; g++) {
+        int32_t v = (int32_t)g;
+        st = (int)carquet_writer_write_batch(w, 0, &v, 1, NULL, NULL);
+        if (st == 0 && g + 1 < nrg) st = (int)carquet_writer_new_row_group(w);
+    }
+    if (w) { int c = (int)carquet_writer_close(w); if (st == 0) st = c; }
+    carquet_schema_free(sc);
+    int ok = st == 0;
+    size_t fn; uint8_t* fb = slurp(path, &fn);
+    for (int mode = 0; ok && mode < 3; mode++) {
+        carquet_reader_options_t ro; carquet_reader_options_init(&ro); ro.use_mmap = mode == 1;
+        carquet_reader_t* rd = mode == 2 ? carquet_reader_open_buffer(fb, fn, &ro, &err) : carquet_reader_open(path, &ro, &err);
+        if (!rd) { ok = 0; break; }
+        if (carquet_reader_num_row_groups(rd) != nrg || carquet_reader_num_rows(rd) != nrg) ok = 0;
+        static const long probes[] = { 0, 1, 32766, 32767, 32768, 32769, 65535, 65536 };
+        for (int q = 0; ok && q < 8; q++) {
+            long g = probes[q]; if (g >= nrg) continue;
+            carquet_column_reader_t* cr = carquet_reader_get_column(rd, (int32_t)g, 0, &err);
+            int32_t v = -1; if (!cr || carquet_column_read_batch(cr, &v, 1, NULL, NULL) != 1 || v != (int32_t)g) ok = 0;
+            if (cr) carquet_column_reader_free(cr);
+        }
+        carquet_reader_close(rd);
+    }
+    fprintf(h->out, " | st=%d flen=%zu p_roundtrip=%d\n", st, fn, ok);
+    h->n_lines++; free(fb); unlink(path);
+}
+
 static void gen_file(hctx* h) {
+    run_many_rg(h, 33000);
+    if (h->thorough) run_many_rg(h, 70000);
     { static const long runs[] = { 63, 64, 65, 8191, 8192, 8193, 8197, 16384 };
       for (int i = 0; i < 8; i++) {
           fcase fc; gen_run_case(h, &fc, 1 + (i % 2), runs[i], i % 3 == 0); run_case(h, &fc); free_case(&fc);
@@ -378,6 +456,7 @@ static void gen_file(hctx* h) {
 }
 
 static int replay_file(hctx* h, const h_line* l) {
+    if (!strcmp(l->op, "wrmany")) { run_many_rg(h, (long)h_ll(h_in(l, "nrg"))); return 1; }
     if (strcmp(l->op, "wr") != 0) return 0;
     fcase fc; if (parse_case(l, &fc)) { fprintf(stderr, "bad wr line\n"); return 1; }
     run_case(h, &fc); free_case(&fc); return 1;
